@@ -8,6 +8,9 @@ import Dmn.Lemmas.EvalSemScope
 import Dmn.Lemmas.EvalSemLoops
 import Dmn.Lemmas.EvalSemInvoke
 import Dmn.Lemmas.EvalSemOps
+import Dmn.Lemmas.EvalSemMore
+import Dmn.Lemmas.EvalFree
+import Dmn.Gen.EvalSources
 
 /-!
 # C01 — FEEL core expressions evaluate to the value the FEEL semantics assigns
@@ -1339,4 +1342,436 @@ example : Scope.equivDeep [[("a", .null), ("b", .bool true)]] [[("b", .bool true
   by_cases ha : "a" = k <;> by_cases hb : "b" = k <;> simp [ha, hb]
 
 end
+end Dmn.Eval
+
+/-!
+## Round 8: the callee of an invocation, `partial`, and the remaining constructs
+
+* `invocation_callee_resolution` / `named_invocation_callee_resolution` (+ corollaries): an invocation
+  resolves its callee name in the scope first; a built-in function only when no binding is visible
+  (seeded change C01-15 hoisted the built-in lookup before the scope lookup).
+* `partial_in_iteration` / `partial_first_iteration` / `for_result_item` / `for_return_partial`: the
+  value of `partial` in iteration k is the list of the first k−1 results, `[]` in the first
+  iteration (seeded change C01-17 left it unbound there).
+* `list_spec_general`, `function_definition_spec`, `qualified_name_spec`, `range_spec`, `instance_of_spec`,
+  `unary_test_spec`, `out_spec`, `literal_spec`: the constructs whose value was not yet stated here.
+-/
+
+namespace Dmn.Eval
+open EvalM Value
+
+section
+variable (env : Env)
+
+/-! ### the callee of an invocation -/
+
+/-- **Which function a positional invocation `n(xs)` calls.** The callee name is resolved in the scope first — the innermost visible binding of `n`, whatever it is bound to — and a built-in function is meant only when NO binding of `n` is visible and `n` is one of the names of the regenerated table (`isBifName`, `Gen/BifNames.lean` from `Bif::from_str`); otherwise the invocation is null.  For every name, argument list and scope (`build_function_invocation_positional` evaluates the callee with `build_name`: `scope.get_entry` first, `Bif::from_str` second). -/
+theorem invocation_callee_resolution (n : String) (xs : List Ast) (s : Scope) (vs : List Value)
+    (hxs : evalList env xs s = .ok (vs, s)) :
+    evalStep env (.functionInvocation (.name n) (.positionalParameters xs)) s =
+      (match Scope.getEntry s n with
+        | some fv => invokePositional env fv vs s
+        | none => if isBifName n then lift (env.bifPos n vs) s else .ok (.null, s)) := by
+  simp only [evalStep, bind_def, getEntry, pure_def, hxs]
+  cases Scope.getEntry s n with
+  | some fv => rfl
+  | none =>
+    by_cases hb : isBifName n = true
+    · simp only [hb, if_true, invokePositional]
+    · simp only [hb, invokePositional]; rfl
+
+/-- The same for an invocation with named arguments `n(k₁: x₁, …)`. -/
+theorem named_invocation_callee_resolution (n : String) (xs : List Ast) (s : Scope) (vs : List Value)
+    (hxs : evalList env xs s = .ok (vs, s)) :
+    evalStep env (.functionInvocation (.name n) (.namedParameters xs)) s =
+      (match Scope.getEntry s n with
+        | some fv => invokeNamed env fv (.namedParams (collectNamed vs 1 [])) s
+        | none => if isBifName n then lift (env.bifNamed n (collectNamed vs 1 [])) s else .ok (.null, s)) := by
+  simp only [evalStep, bind_def, getEntry, pure_def, hxs]
+  cases Scope.getEntry s n with
+  | some fv => rfl
+  | none =>
+    by_cases hb : isBifName n = true
+    · simp only [hb, if_true, invokeNamed]
+    · simp only [hb, invokeNamed]; rfl
+
+/-- A binding of `n` in the top context of the scope (the argument context of a function body, the iteration context of a `for` / `some` / `every` body, the entries so far of a context literal, the item context of a filter) is the callee — whatever the contexts underneath bind under `n` and whether or not `n` is the name of a built-in function. -/
+theorem invocation_callee_top_context (n : String) (xs : List Ast) (s : Scope) (c : Ctx) (fv : Value) (vs : List Value)
+    (hc : Ctx.get c n = some fv)
+    (hxs : evalList env xs (s ++ [c]) = .ok (vs, s ++ [c])) :
+    evalStep env (.functionInvocation (.name n) (.positionalParameters xs)) (s ++ [c]) =
+      invokePositional env fv vs (s ++ [c]) ∧
+    evalStep env (.functionInvocation (.name n) (.namedParameters xs)) (s ++ [c]) =
+      invokeNamed env fv (.namedParams (collectNamed vs 1 [])) (s ++ [c]) := by
+  have hg : Scope.getEntry (s ++ [c]) n = some fv := by rw [scope_lookup_top_down, hc]
+  constructor
+  · rw [invocation_callee_resolution env n xs _ vs hxs, hg]
+  · rw [named_invocation_callee_resolution env n xs _ vs hxs, hg]
+
+/-- A visible binding of `n` to a value that is no function makes `n(…)` null — also when `n` is the name of a built-in function (the binding is not skipped in favour of the built-in). -/
+theorem invocation_bound_not_function_null (n : String) (xs : List Ast) (s : Scope) (fv : Value) (vs : List Value)
+    (hg : Scope.getEntry s n = some fv)
+    (hxs : evalList env xs s = .ok (vs, s))
+    (h1 : ∀ ps b rt, fv ≠ .fn ps b rt) (h2 : ∀ m, fv ≠ .bif m) :
+    evalStep env (.functionInvocation (.name n) (.positionalParameters xs)) s = .ok (.null, s) ∧
+    evalStep env (.functionInvocation (.name n) (.namedParameters xs)) s = .ok (.null, s) := by
+  constructor
+  · rw [invocation_callee_resolution env n xs _ vs hxs, hg]
+    cases fv <;> first | rfl | exact absurd rfl (h1 _ _ _) | exact absurd rfl (h2 _)
+  · rw [named_invocation_callee_resolution env n xs _ vs hxs, hg]
+    cases fv <;> first | rfl | exact absurd rfl (h1 _ _ _) | exact absurd rfl (h2 _)
+
+/-- The built-in function `n` is what `n(…)` invokes when no binding of `n` is visible. -/
+theorem invocation_builtin_iff_unbound (n : String) (xs : List Ast) (s : Scope) (vs : List Value)
+    (hb : isBifName n = true) (hg : Scope.getEntry s n = none)
+    (hxs : evalList env xs s = .ok (vs, s)) :
+    evalStep env (.functionInvocation (.name n) (.positionalParameters xs)) s = lift (env.bifPos n vs) s ∧
+    evalStep env (.functionInvocation (.name n) (.namedParameters xs)) s =
+      lift (env.bifNamed n (collectNamed vs 1 [])) s := by
+  constructor
+  · rw [invocation_callee_resolution env n xs _ vs hxs, hg]; simp only [hb, if_true]
+  · rw [named_invocation_callee_resolution env n xs _ vs hxs, hg]; simp only [hb, if_true]
+
+
+example : isBifName "sum" = true ∧ isBifName "date and time" = true ∧ isBifName "sum2" = false := by decide
+
+/-- `sum()` in a scope that binds `sum` to `function() true` is `true` (the built-in `sum` is not
+consulted), and null in a scope that binds `sum` to `true`. -/
+example (num : NumOps) (bp : String → List Value → Outcome Value)
+    (bn : String → List (String × Value × Nat) → Outcome Value) (s : Scope) :
+    eval num bp bn 1 (.functionInvocation (.name "sum") (.positionalParameters []))
+      (s ++ [[("sum", .fn [] (.boolean true) .any)]]) =
+        .ok (Value.coerced .any (.bool true), s ++ [[("sum", .fn [] (.boolean true) .any)]]) := by
+  rw [eval, (invocation_callee_top_context _ "sum" [] s [("sum", .fn [] (.boolean true) .any)]
+    (.fn [] (.boolean true) .any) [] (by simp [Ctx.get]) rfl).1]
+  simp [invokePositional, bindPositional, callFunction, bracket, mkEnv, bind_def, push, pop, pure_def,
+    evalStep, Scope.push, Scope.pop]
+
+example (s : Scope) : evalStep env (.functionInvocation (.name "sum") (.positionalParameters []))
+      (s ++ [[("sum", .bool true)]]) = .ok (.null, s ++ [[("sum", .bool true)]]) :=
+  (invocation_bound_not_function_null env "sum" [] _ (.bool true) []
+    (by rw [scope_lookup_top_down]; simp [Ctx.get]) rfl (by intro _ _ _ h; cases h) (by intro _ h; cases h)).1
+
+example : evalStep env (.functionInvocation (.name "sum") (.positionalParameters [])) [] =
+    lift (env.bifPos "sum" []) [] :=
+  (invocation_builtin_iff_unbound env "sum" [] [] [] (by decide) rfl rfl).1
+
+/-! ### `partial` -/
+
+/-- **The value of `partial` in iteration k of a `for`** (k = `pre.length` + 1, the iteration contexts being `pre ++ c :: post`): the list of the results of the iterations 1 … k−1, i.e. the first k−1 items of the final result — whatever the enclosing scope `s` or the iteration context `c` bind under the name `partial`. -/
+theorem partial_in_iteration (bv : Ctx → List Value → Value) (s : Scope) (pre : List Ctx) (c : Ctx) (post : List Ctx) :
+    evalStep env (.name "partial") (forScope s c (forFold bv pre [])) =
+      .ok (.list ((forFold bv (pre ++ c :: post) []).take pre.length), forScope s c (forFold bv pre [])) := by
+  rw [forFold_take, name_spec]
+  simp only [forScope, scope_lookup_top_down, Ctx.get_set, if_true]
+
+/-- In the first iteration `partial` is the empty list (not the value an enclosing scope binds under that name). -/
+theorem partial_first_iteration (s : Scope) (c : Ctx) :
+    evalStep env (.name "partial") (forScope s c []) = .ok (.list [], forScope s c []) := by
+  rw [name_spec]
+  simp only [forScope, scope_lookup_top_down, Ctx.get_set, if_true]
+
+/-- The recursion equation of the result `r` of a `for`: item k of `r` is the value of the body in iteration context k with `partial` = the first k−1 items of `r`.  (With `for_length` it determines `r`.) -/
+theorem for_result_item (bv : Ctx → List Value → Value) (pre : List Ctx) (c : Ctx) (post : List Ctx) :
+    (forFold bv (pre ++ c :: post) [])[pre.length]? =
+      some (bv c ((forFold bv (pre ++ c :: post) []).take pre.length)) := by
+  rw [forFold_item, forFold_take]
+
+/-- `for … return partial`: item k of the result is the list of the items before it (`[[], [[]], [[], [[]]], …]`), for every list of domains. -/
+theorem for_return_partial (doms : List ForDom) (sts : List Iter.State) (s : Scope) (cs : List Ctx)
+    (hd : ∀ d ∈ doms, d.Evaluates env s)
+    (hst : doms.map ForDom.state? = sts.map some)
+    (hit : env.iter (tagFrom 0 sts) = .ok cs) :
+    evalStep env (.for (.iterationContexts (doms.map ForDom.item)) (.name "partial")) s =
+      .ok (.list (forFold (fun _ r => .list r) cs []), s) ∧
+    ∀ k, k < cs.length → (forFold (fun _ r => .list r) cs [])[k]? =
+      some (.list ((forFold (fun _ r => .list r) cs []).take k)) := by
+  constructor
+  · apply for_spec env doms sts (.name "partial") s cs (fun _ r => .list r) hd hst hit
+    intro pre c post _
+    rw [name_spec]
+    simp only [forScope, scope_lookup_top_down, Ctx.get_set, if_true]
+  · intro k hk
+    have hsplit : cs = cs.take k ++ cs[k] :: cs.drop (k + 1) := by
+      rw [List.getElem_cons_drop]; exact (List.take_append_drop k cs).symm
+    have hlen : (cs.take k).length = k := by rw [List.length_take]; omega
+    have h := for_result_item (fun _ r => Value.list r) (cs.take k) cs[k] (cs.drop (k + 1))
+    rw [← hsplit, hlen] at h
+    exact h
+
+
+/-- `for x in [true, false] return partial` -/
+example (num : NumOps) (bp : String → List Value → Outcome Value)
+    (bn : String → List (String × Value × Nat) → Outcome Value) (s : Scope) :
+    ∃ cs, evalStep (mkEnv num bp bn Variant.spec 0) (.for (.iterationContexts
+      ([ForDom.single "x" (.list [.boolean true, .boolean false]) (.list [.bool true, .bool false])].map ForDom.item))
+      (.name "partial")) s = .ok (.list (forFold (fun _ r => .list r) cs []), s) ∧ cs.length = 2 := by
+  refine ⟨_, (for_return_partial _ _ [Iter.mkList "x" [.bool true, .bool false]] s _ ?_ rfl rfl).1, ?_⟩
+  · intro d hd; simp only [List.mem_cons, List.not_mem_nil, or_false] at hd; subst hd; rfl
+  · simp [tagFrom, insertByPos, Iter.product, Iter.mkList, Iter.domain]
+
+/-! ### the remaining constructs -/
+
+/-- A list literal (and the expression list / negated list of a unary test) of any length: the items, in order, each evaluated in the scope of the literal. -/
+theorem list_spec_general (xs : List Ast) (s : Scope) (f : Ast → Value)
+    (h : ∀ x ∈ xs, evalStep env x s = .ok (f x, s)) :
+    evalStep env (.list xs) s = .ok (.list (xs.map f), s) ∧
+    evalStep env (.expressionList xs) s = .ok (.exprList (xs.map f), s) ∧
+    evalStep env (.negatedList xs) s = .ok (.negList (xs.map f), s) := by
+  simp only [evalStep, bind_def, evalList_map env xs s f h, pure_def, and_self]
+
+/-- **Function definition**: the value of `function(p₁: t₁, …) body` is the triple (formal parameters, the syntax tree of the body, result type `Any`) — it records NO scope: the names of the body are resolved when the function is invoked, in the scope of the call (`invocation_binds_coerced`; dynamic scoping, known finding F68). -/
+theorem function_definition_spec (ps : List (String × FType)) (body : Ast) (s : Scope) :
+    evalStep env (.functionDefinition (.formalParameters (ps.map paramAst)) (.functionBody body false)) s =
+      .ok (.fn ps body .any, s) := by
+  simp only [evalStep, bind_def, evalList_params env ps s, pure_def, Bool.false_eq_true, if_false]
+  simp [List.filterMap_map, Function.comp_def]
+
+/-- A function definition with an external body (`external {java: …}`) is null. -/
+theorem function_definition_external_null (ps body : Ast) (s : Scope) (pv : Value)
+    (hp : evalStep env ps s = .ok (pv, s)) :
+    evalStep env (.functionDefinition ps (.functionBody body true)) s = .ok (.null, s) := by
+  simp only [evalStep, bind_def, hp, if_true, pure_def]
+
+/-- **Qualified name** `a.b.c` (an endpoint of a range literal): the first segment is resolved like a name — the innermost visible binding — and the remaining segments are looked up inside the context found (`visibleSearchDeep`); null when a segment is missing or the value on the way is not a context. -/
+theorem qualified_name_spec (segs : List String) (s : Scope) :
+    evalStep env (.qualifiedName (segs.map Ast.qualifiedNameSegment)) s =
+      .ok ((visibleSearchDeep s segs).getD .null, s) := by
+  simp only [evalStep, bind_def, evalList_segments env segs s, getScope, pure_def,
+    scopeSearchDeep_eq_visible']
+  simp [List.filterMap_map, Function.comp_def]
+
+/-- A range literal is the range of its endpoint values with the closedness written. -/
+theorem range_spec (a b : Ast) (lc rc : Bool) (s : Scope) (va vb : Value)
+    (ha : evalStep env a s = .ok (va, s)) (hb : evalStep env b s = .ok (vb, s)) :
+    evalStep env (.range (.intervalStart a lc) (.intervalEnd b rc)) s = .ok (.range va lc vb rc, s) := by
+  simp only [evalStep, bind_def, ha, hb, pure_def, rangeV]
+
+/-- `e instance of T` is `instanceOfV` of the value and the type (C16 states the relation). -/
+theorem instance_of_spec (a t : Ast) (s : Scope) (va vt : Value)
+    (ha : evalStep env a s = .ok (va, s)) (ht : evalStep env t s = .ok (vt, s)) :
+    evalStep env (.instanceOf a t) s = .ok (instanceOfV va vt, s) := by
+  simp only [evalStep, bind_def, ha, ht, pure_def]
+
+/-- The unary tests `< e`, `<= e`, `> e`, `>= e` carry the value of `e`. -/
+theorem unary_test_spec (a : Ast) (s : Scope) (va : Value) (ha : evalStep env a s = .ok (va, s)) :
+    evalStep env (.unaryLt a) s = .ok (.unaryLt va, s) ∧ evalStep env (.unaryLe a) s = .ok (.unaryLe va, s) ∧
+    evalStep env (.unaryGt a) s = .ok (.unaryGt va, s) ∧ evalStep env (.unaryGe a) s = .ok (.unaryGe va, s) := by
+  simp only [evalStep, bind_def, ha, pure_def, and_self]
+
+/-- `build_out` (output clause selected by an input test): the value of `a` when `a in b` is true, else null (`a` is evaluated twice). -/
+theorem out_spec (a b : Ast) (s : Scope) (va vb : Value)
+    (ha : evalStep env a s = .ok (va, s)) (hb : evalStep env b s = .ok (vb, s)) :
+    evalStep env (.out a b) s = .ok (outV (inV va vb) va, s) := by
+  simp only [evalStep, bind_def, ha, hb, pure_def]
+
+/-- Literals denote themselves. -/
+theorem literal_spec (s : Scope) (b : Bool) (t : String) (before after : String) :
+    evalStep env (.boolean b) s = .ok (.bool b, s) ∧ evalStep env (.string t) s = .ok (.str t, s) ∧
+    evalStep env .null s = .ok (.null, s) ∧
+    evalStep env (.numeric before after) s = .ok (numericV env.num before after, s) := by
+  simp only [evalStep, pure_def, and_self]
+
+
+example (s : Scope) : evalStep env (.list [.boolean true, .null, .boolean false]) s =
+    .ok (.list [.bool true, .null, .bool false], s) := by
+  have h := (list_spec_general env [.boolean true, .null, .boolean false] s
+    (fun x => match x with | .boolean b => .bool b | _ => .null) (by
+      intro x hx
+      simp only [List.mem_cons, List.not_mem_nil, or_false] at hx
+      rcases hx with rfl | rfl | rfl <;> rfl)).1
+  simpa using h
+
+example (s : Scope) : evalStep env (.range (.intervalStart .null true) (.intervalEnd (.boolean true) false)) s =
+    .ok (.range .null true (.bool true) false, s) := range_spec env _ _ _ _ s _ _ rfl rfl
+
+example (s : Scope) : evalStep env (.instanceOf .null (.feelType .null)) s = .ok (instanceOfV .null (.feelType .null), s) :=
+  instance_of_spec env _ _ s _ _ rfl rfl
+
+example (s : Scope) : evalStep env (.unaryLt .null) s = .ok (.unaryLt .null, s) := (unary_test_spec env _ s _ rfl).1
+
+example (s : Scope) : evalStep env (.out .null .null) s = .ok (outV (inV .null .null) .null, s) :=
+  out_spec env _ _ s _ _ rfl rfl
+
+example (s : Scope) : evalStep env (.functionDefinition (.formalParameters []) (.functionBody .null true)) s = .ok (.null, s) :=
+  function_definition_external_null env _ _ s _ rfl
+
+end
+end Dmn.Eval
+
+/-!
+## Round 8 (continued): the free-names form of the last clause
+
+-- FULL STATEMENT (not provable of the current code, finding F68-dynamic-scope):
+--   ∀ fuel a s₁ s₂, namesIn G a → AgreeOn G s₁ s₂ →
+--     (eval num bp bn fuel a s₁).map Prod.fst = (eval num bp bn fuel a s₂).map Prod.fst
+-- A function value carries no environment (`function_definition_spec`) and its body is evaluated in the
+-- scope of the call (`invocation_binds_coerced`), so the value of `f()` depends on names that do not
+-- occur in it: `eval_depends_on_free_names_counterexample`.  What is proved, for every syntax tree:
+-- `eval_depends_on_free_names` — the statement with the one extra hypothesis that the function bodies
+-- entered look up only names in `G` too (the hereditary form: "the names of the expression and,
+-- through the function values it invokes, of their bodies"); `evalStep_depends_on_looked_up_names` — the
+-- same for any environment whose function-body evaluator is insensitive; and
+-- `eval_depends_on_free_names_partial` — the special case of evaluations that enter no function body.
+-- (`namesIn` counts every looked-up occurrence of a name, bound occurrences included: agreeing on a
+-- name that the expression binds itself is harmless and keeps the statement free of binder bookkeeping.)
+-/
+
+namespace Dmn.Eval
+open EvalM Value
+
+/-- **The outcome depends only on the values bound to the names the expression looks up.**  `namesIn G a`: every name occurring in `a` in a position where it is looked up in the scope (plain names, the first segment of a qualified name — not the name after a path's dot, not a variable being declared, not a parameter name) satisfies `G`; `AgreeOn G s₁ s₂`: the two scopes bind the names in `G` alike (they may differ in everything else: shape, other names, what is shadowed).  Then the two evaluations have the same value, the same panic or the same divergence — for every syntax tree (filters, iterations, contexts, invocations of built-ins included), provided the function bodies that are entered do so as well (`hc`; at fuel 0 none is entered). -/
+theorem evalStep_depends_on_looked_up_names (G : String → Bool) (env : Env)
+    (hc : ∀ b, SameOnAgree G (env.call b) (env.call b))
+    (a : Ast) (hn : namesIn G a = true) (s₁ s₂ : Scope) (h : AgreeOn G s₁ s₂) :
+    (evalStep env a s₁).map Prod.fst = (evalStep env a s₂).map Prod.fst := by
+  have hr := g_evalStep (freeRel G) env env.call hc a hn
+  rw [withCall_self] at hr
+  exact hr.2.2 s₁ s₂ h
+
+/-- **The last clause of the property in its free-names form, for every evaluation that does not enter the body of a function value** (`hnd`: with no fuel for function bodies the evaluation does not run out of fuel): at every fuel the outcome in two scopes that agree on the names the expression looks up is the same.  (The excluded evaluations are exactly those of `eval_depends_on_free_names_counterexample`.) -/
+theorem eval_depends_on_free_names_partial (G : String → Bool) (num : NumOps)
+    (bp : String → List Value → Outcome Value) (bn : String → List (String × Value × Nat) → Outcome Value)
+    (fuel : Nat) (a : Ast) (hn : namesIn G a = true) (s₁ s₂ : Scope) (h : AgreeOn G s₁ s₂)
+    (hnd : eval num bp bn 0 a s₁ ≠ .diverge) :
+    (eval num bp bn fuel a s₁).map Prod.fst = (eval num bp bn fuel a s₂).map Prod.fst := by
+  have h0 : (eval num bp bn 0 a s₁).map Prod.fst = (eval num bp bn 0 a s₂).map Prod.fst :=
+    (evalWith_zero_sameOnAgree G num bp bn Variant.code a hn).2.2 s₁ s₂ h
+  have e1 : eval num bp bn fuel a s₁ = eval num bp bn 0 a s₁ := by
+    rcases eval_fuel_only_diverge num bp bn 0 fuel (Nat.zero_le _) a s₁ with hd | he
+    · exact absurd hd hnd
+    · exact he
+  have e2 : eval num bp bn fuel a s₂ = eval num bp bn 0 a s₂ := by
+    rcases eval_fuel_only_diverge num bp bn 0 fuel (Nat.zero_le _) a s₂ with hd | he
+    · rw [hd] at h0
+      cases h1 : eval num bp bn 0 a s₁ with
+      | ok r => rw [h1] at h0; simp [Outcome.map] at h0
+      | panic p => rw [h1] at h0; simp [Outcome.map] at h0
+      | diverge => exact absurd h1 hnd
+    · exact he
+  rw [e1, e2, h0]
+
+/-- **The last clause of the property in its free-names form, hereditarily through function values**:
+two scopes that bind alike every name in `G` give the same value, the same panic or the same divergence
+for every expression that looks up only names in `G` — at every fuel — provided every function body
+*entered during the evaluation* looks up only names in `G` as well (`hg`: the evaluator that refuses such
+bodies, `evalG`, does not refuse; bodies of functions defined in the expression itself pass by
+construction, bodies of function values taken from the scope are where dynamic scoping bites:
+`eval_depends_on_free_names_counterexample`).  Proof: under the guard the outcome depends on `G` only
+(`evalG_sameOnAgree`, the guarded relational induction `g_evalStep` over all node kinds and induction on
+fuel), and the evaluator proper refines the guarded one (`eval_refinesG`). -/
+theorem eval_depends_on_free_names (G : String → Bool) (num : NumOps)
+    (bp : String → List Value → Outcome Value) (bn : String → List (String × Value × Nat) → Outcome Value)
+    (fuel : Nat) (a : Ast) (hn : namesIn G a = true) (s₁ s₂ : Scope) (h : AgreeOn G s₁ s₂)
+    (hg : evalG G num bp bn fuel a s₁ ≠ .panic guardSite) :
+    (eval num bp bn fuel a s₁).map Prod.fst = (eval num bp bn fuel a s₂).map Prod.fst := by
+  have h0 : (evalG G num bp bn fuel a s₁).map Prod.fst = (evalG G num bp bn fuel a s₂).map Prod.fst :=
+    (evalG_sameOnAgree G num bp bn fuel a hn).2.2 s₁ s₂ h
+  have e1 : eval num bp bn fuel a s₁ = evalG G num bp bn fuel a s₁ := by
+    rcases eval_refinesG G num bp bn fuel a s₁ with hd | he
+    · exact absurd hd hg
+    · exact he
+  have e2 : eval num bp bn fuel a s₂ = evalG G num bp bn fuel a s₂ := by
+    rcases eval_refinesG G num bp bn fuel a s₂ with hd | he
+    · rw [hd] at h0
+      cases h1 : evalG G num bp bn fuel a s₁ with
+      | ok r => rw [h1] at h0; simp [Outcome.map] at h0
+      | panic p =>
+        rw [h1] at h0
+        simp only [Outcome.map, Outcome.panic.injEq] at h0
+        rw [h0] at h1
+        exact absurd h1 hg
+      | diverge => rw [h1] at h0; simp [Outcome.map] at h0
+    · exact he
+  rw [e1, e2, h0]
+
+/-- `{g: function(x) x + a}`-like: a function defined in the expression itself may be entered. `(function() a)()`
+in two scopes that differ on `b`. -/
+example (num : NumOps) (bp : String → List Value → Outcome Value)
+    (bn : String → List (String × Value × Nat) → Outcome Value) :
+    let e : Ast := .functionInvocation (.functionDefinition (.formalParameters []) (.functionBody (.name "a") false))
+      (.positionalParameters [])
+    (eval num bp bn 1 e [[("a", .null), ("b", .bool true)]]).map Prod.fst =
+    (eval num bp bn 1 e [[("b", .bool false)], [("a", .null)]]).map Prod.fst := by
+  intro e
+  apply eval_depends_on_free_names (fun k => k == "a") num bp bn 1 e (by decide)
+  · intro k hk
+    have : k = "a" := by simpa using hk
+    subst this
+    simp [Scope.getEntry, Ctx.get]
+  · simp [e, evalG, mkEnvG, evalStep, evalList, bind_def, getEntry, Scope.getEntry, pure_def,
+      invokePositional,
+      bindPositional, callFunction, bracket, push, pop, Scope.push, Scope.pop, namesIn]
+
+
+/-- Known finding F68-dynamic-scope at the level of this clause: the scopes agree on every name occurring in `f()`, and the results differ — the body of the function value bound to `f` reads `y` in the scope of the call. -/
+theorem eval_depends_on_free_names_counterexample (num : NumOps) (bp : String → List Value → Outcome Value)
+    (bn : String → List (String × Value × Nat) → Outcome Value) :
+    let f : Value := .fn [] (.name "y") .any
+    let s₁ : Scope := [[("f", f), ("y", .bool true)]]
+    let s₂ : Scope := [[("f", f), ("y", .bool false)]]
+    let e : Ast := .functionInvocation (.name "f") (.positionalParameters [])
+    let G : String → Bool := fun k => k == "f"
+    namesIn G e = true ∧ AgreeOn G s₁ s₂ ∧
+      eval num bp bn 1 e s₁ = .ok (.bool true, s₁) ∧ eval num bp bn 1 e s₂ = .ok (.bool false, s₂) ∧
+      evalG G num bp bn 1 e s₁ = .panic guardSite := by
+  refine ⟨by decide, ?_, ?_, ?_, ?_⟩
+  · intro k hk
+    have : k = "f" := by simpa using hk
+    subst this
+    simp [Scope.getEntry, Ctx.get]
+  · simp [eval, mkEnv, evalStep, evalList, bind_def, getEntry, Scope.getEntry, Ctx.get, pure_def,
+      invokePositional, bindPositional, callFunction, bracket, push, pop, Scope.push, Scope.pop, coerced_any', List.findSome?]
+  · simp [eval, mkEnv, evalStep, evalList, bind_def, getEntry, Scope.getEntry, Ctx.get, pure_def,
+      invokePositional, bindPositional, callFunction, bracket, push, pop, Scope.push, Scope.pop, coerced_any', List.findSome?]
+  · simp [evalG, mkEnvG, evalStep, evalList, bind_def, getEntry, Scope.getEntry, Ctx.get, pure_def,
+      invokePositional, bindPositional, callFunction, bracket, push, Scope.push, namesIn, EvalM.panic]
+
+/-- non-vacuity: `[a, b][item = x]`-like trees are covered; here `if a then a else a` in two scopes that
+differ on `b`, and `namesIn` rejects a tree that looks up `b`. -/
+example (num : NumOps) (bp : String → List Value → Outcome Value)
+    (bn : String → List (String × Value × Nat) → Outcome Value) (fuel : Nat) :
+    (eval num bp bn fuel (.if (.name "a") (.name "a") (.name "a")) [[("a", .null), ("b", .bool true)]]).map Prod.fst =
+    (eval num bp bn fuel (.if (.name "a") (.name "a") (.name "a")) [[("b", .bool false)], [("a", .null)]]).map Prod.fst := by
+  apply eval_depends_on_free_names_partial (fun k => k == "a") num bp bn fuel _ (by decide)
+  · intro k hk
+    have : k = "a" := by simpa using hk
+    subst this
+    simp [Scope.getEntry, Ctx.get]
+  · simp [eval, evalStep, bind_def, getEntry, Scope.getEntry, Ctx.get, pure_def, ifBranch]
+
+example : namesIn (fun k => k == "a") (.add (.name "a") (.name "b")) = false ∧
+    namesIn (fun k => k == "a") (.path (.name "a") (.name "b")) = true ∧
+    namesIn (fun k => k == "a") (.qualifiedName [.qualifiedNameSegment "a", .qualifiedNameSegment "b"]) = true := by
+  decide
+
+end Dmn.Eval
+
+/-!
+## The text of the code the equations for `name`, `functionInvocation` and `forLoop` transcribe
+
+`Gen/EvalSources.lean` is regenerated from `feel-evaluator/src/builders.rs` and `iterations.rs` on every run
+(`translate/evalsources.py`).
+-/
+
+namespace Dmn.Eval
+
+/-- **The sources are as modelled**: `build_name` consults the scope, then the built-in names, then
+answers null (`evalStep … (.name n)`, `name_spec`); `build_function_invocation_positional` / `_named`
+build the callee with `build_evaluator(lhs)`, look neither at the callee node nor at `Bif::from_str`
+themselves, evaluate the callee before the arguments and dispatch on built-in function / function
+definition / anything else (`evalStep … (.functionInvocation f args)`, `invokePositional`, `invokeNamed`;
+`invocation_callee_resolution`); the closure `ForExpressionEvaluator::evaluate` hands to the iterator
+clones the iteration context, binds `partial` to the results so far — unconditionally —, pushes, evaluates
+the body, pops and appends (`forLoop`; `partial_in_iteration`). -/
+theorem evaluator_sources_as_modelled :
+    Gen.nameSources = ["scope", "builtin", "null"] ∧
+    Gen.positionalCalleeGeneric = true ∧ Gen.positionalCalleeSpecialCased = false ∧
+    Gen.positionalCalleeFirst = true ∧ Gen.positionalDispatch = ["BuiltInFunction", "FunctionDefinition", "_"] ∧
+    Gen.namedCalleeGeneric = true ∧ Gen.namedCalleeSpecialCased = false ∧
+    Gen.namedCalleeFirst = true ∧ Gen.namedDispatch = ["BuiltInFunction", "FunctionDefinition", "_"] ∧
+    Gen.forBodySteps = ["clone", "set-partial", "push", "evaluate", "pop", "append"] ∧
+    Gen.forPartialName = "partial" := by
+  decide
+
 end Dmn.Eval
